@@ -92,6 +92,12 @@ def mode_all(p):
             for zero in (None, 0):
                 mm = mk_iv(seed, C, D, R, update_sigma=upd, variance_floor=1e-3)
                 data = [mk_stats(rs, C, D, zero) for _ in range(4)]
+                if upd and zero == 0:
+                    # the starved component starts below the floor (sigma is initialised from the UBM variances, which only
+                    # respect the GMM's own threshold): after an update every covariance must respect the i-vector floor
+                    sg = mm.sigma.copy()
+                    sg[0] = 1e-6
+                    mm.sigma = sg
                 prev = marginal(mm, data)
                 for it in range(4):
                     with np.errstate(all="ignore"):
